@@ -140,7 +140,7 @@ func scalarReflectFromGo(schema *schema_j5pb.Field, value interface{}) (protoref
 			case string:
 				valAsInt, err := strconv.ParseInt(val, 10, 32)
 				if err != nil {
-					return pv, nil
+					return pv, err
 				}
 
 				return protoreflect.ValueOfInt32(int32(valAsInt)), nil
@@ -169,7 +169,7 @@ func scalarReflectFromGo(schema *schema_j5pb.Field, value interface{}) (protoref
 			case string:
 				valAsInt, err := strconv.ParseInt(val, 10, 64)
 				if err != nil {
-					return pv, nil
+					return pv, err
 				}
 
 				return protoreflect.ValueOfInt64(valAsInt), nil
@@ -222,7 +222,7 @@ func scalarReflectFromGo(schema *schema_j5pb.Field, value interface{}) (protoref
 			case string:
 				valAsInt, err := strconv.ParseUint(val, 10, 32)
 				if err != nil {
-					return pv, nil
+					return pv, err
 				}
 
 				return protoreflect.ValueOfUint32(uint32(valAsInt)), nil
@@ -264,7 +264,7 @@ func scalarReflectFromGo(schema *schema_j5pb.Field, value interface{}) (protoref
 			case string:
 				valAsInt, err := strconv.ParseUint(val, 10, 64)
 				if err != nil {
-					return pv, nil
+					return pv, err
 				}
 
 				return protoreflect.ValueOfUint64(valAsInt), nil
